@@ -12,12 +12,17 @@ Used == {pth[q] : q \in Parts} \ {-1}
 Fresh == {t \in 1 .. P.N : t # cal /\ t \notin Used}
 TCands == {cal} \cup Used \cup (IF Fresh = {} THEN {} ELSE {CHOOSE t \in Fresh : \A u \in Fresh : t <= u})
 
+\* overlap-free schedules: participants in index order, each on a canonical thread
+MinFresh == IF Fresh = {} THEN cal ELSE CHOOSE t \in Fresh : \A u \in Fresh : t <= u
+SeqThread(q) == IF q = pl.cpart THEN cal ELSE IF pth[q] # -1 THEN pth[q] ELSE MinFresh
+SeqPart(q) == \A r \in Parts : r < q => Finished(r)
+
 Init == \E p \in Params : InitWith(p)
 
 Next ==
   \/ Call(0)
   \/ \E t \in TCands, q \in Parts :
-       /\ (SeqOnly => active = {})
+       /\ (SeqOnly => active = {} /\ SeqPart(q) /\ t = SeqThread(q))
        /\ ApplyBegin(t, Lo(q) + nxt[q])
   \/ \E a \in active : ApplyEnd(a.th, a.el)
   \/ Return(cal)
